@@ -158,7 +158,7 @@ type Part struct {
 // Partition splits the tree below the root into parts by expanding `levels` levels (deterministic).
 func Partition(sc *Scenario, bound, levels int) ([]Part, string) {
 	parts := []Part{{Prefix: nil, Leaf: false}}
-	for l := 0; l < levels; l++ {
+	for l := 0; l < levels || (len(parts) < 400 && l < 6); l++ {
 		var next []Part
 		for _, pt := range parts {
 			if pt.Leaf {
